@@ -4,6 +4,8 @@ package req
 
 import (
 	"fmt"
+	"os"
+	"path/filepath"
 	"strings"
 	"testing"
 
@@ -136,7 +138,24 @@ func TestVerif_C18_consume(t *testing.T) {
 	if err != nil {
 		t.Fatalf("driver: %v -- treat as: no tests to run", err)
 	}
+	ctCaseOpen := c18OpenClass("c18-unmarshal-content-type-case")
 	for i, sc := range scs {
+		// known finding (fixes/C18-4-unmarshal-content-type-case.patch): Unmarshal / Into still search the
+		// Content-Type case-sensitively, unlike the automatic binding since /repo f13c292
+		if h := sc.transport[0].h; ctCaseOpen && class[i] == "" && impl[i] != model[i] && h != nil && strings.ContainsAny(uses[i], "iu") {
+			exact := "other"
+			if strings.Contains(h.ct, "json") {
+				exact = "json"
+			} else if strings.Contains(h.ct, "xml") {
+				exact = "xml"
+			}
+			if (exact == "xml") != (c18CtClass(h.ct) == "xml") {
+				class[i] = "c18-unmarshal-content-type-case"
+				if verdict[i] == "" {
+					verdict[i] = "Unmarshal/Into chose the unmarshaller case-sensitively"
+				}
+			}
+		}
 		m := model[i]
 		switch {
 		case m == "nocall":
@@ -167,6 +186,25 @@ func TestVerif_C18_consume(t *testing.T) {
 	}
 	s.Finish()
 	hist.need(t, "nocall", "some-consumer-ok", "unmarshal-rejects", "late-or-early-read-failure", "transformer-failure-reported", "nothing-read-in-call")
+}
+
+// c18OpenClass: known-findings.txt still carries an open: line of property C18 for this class.
+func c18OpenClass(class string) bool {
+	dir := os.Getenv("VERIF_DIR")
+	if dir == "" {
+		dir = "/verif"
+	}
+	b, err := os.ReadFile(filepath.Join(dir, "known-findings.txt"))
+	if err != nil {
+		return false
+	}
+	for _, l := range strings.Split(string(b), "\n") {
+		l = strings.TrimSpace(l)
+		if strings.HasPrefix(l, "open:") && strings.Contains(l, "property=C18 ") && strings.Contains(l, "class="+class+" ") {
+			return true
+		}
+	}
+	return false
 }
 
 // fail_h returns the scripted response of a transport outcome (an empty one for a failure).
